@@ -269,7 +269,13 @@ func (c *Ctx) funcWrites(fn *ssa.Function, visiting map[*ssa.Function]bool) *wri
 	if visiting[fn] {
 		return newWriteSet()
 	}
-	if fc := c.prog.contractFor(fn); fc != nil && (fc.External || fc.Trusted != "") && fc.Opts["writes"] != "" {
+	if fc := c.prog.contractFor(fn); fc != nil && (fc.External || fc.Trusted != "" || fc.Opts["callwrites"] == "declared") && fc.Opts["writes"] != "" {
+		// `opt callwrites=declared` on a verified function: callers havoc only the heaps listed in
+		// `opt writes=` (as for a trusted contract) instead of everything the body scan finds; the
+		// body's frame obligations still show that no pre-existing object outside `modifies` changes
+		if fc.Opts["callwrites"] == "declared" {
+			c.assumed["write set of "+funcDisplay(fn)+" at call sites is the declared one (opt callwrites=declared)"] = true
+		}
 		return c.declaredWrites(fc)
 	}
 	if isPureExternal(fn) {
